@@ -142,11 +142,38 @@ def make_value(kind, pid):
         return 1.5
     if kind == "b''":
         return b""
+    if kind == "array-like":
+        return ArrayLike(pid)
+    if kind == "NotImplemented":
+        return NotImplemented
+    if kind == "Ellipsis":
+        return Ellipsis
     raise ValueError("unknown value kind %r" % kind)
 
 
+class ArrayLike:
+    """Behaves like a numpy array where it matters: no truth value, == is element-wise."""
+
+    def __init__(self, pid):
+        self.pid = pid
+
+    def __bool__(self):
+        raise ValueError("The truth value of an array with more than one element is ambiguous")
+
+    def __len__(self):
+        return 2
+
+    def __eq__(self, other):
+        return self  # "element-wise": neither True nor False
+
+    __hash__ = None
+
+    def __repr__(self):
+        return "array-like(%s)" % self.pid
+
+
 FALSY_VALUES = ["0", "0.0", "False", "''", "[]", "()", "{}", "set()", "b''"]
-TRUTHY_VALUES = ["True", "str", "obj", "exc-instance", "1.5"]
+TRUTHY_VALUES = ["True", "str", "obj", "exc-instance", "1.5", "array-like", "NotImplemented", "Ellipsis"]
 
 
 def jsonable(x):
@@ -260,9 +287,10 @@ class Harness:
         if kind == "function":
             return fn
         if kind == "partial":
-            import functools
-
             return functools.partial(fn)
+        if kind == "partial-args":
+            # a partial that carries arguments of its own: they come first / are merged
+            return functools.partial(fn, "pre", pk="pre")
         is_async = self.specs[pid]["flavour"] != "threading"
         if kind == "method":
             return (_AsyncCarrier(fn) if is_async else _SyncCarrier(fn)).call
@@ -313,6 +341,9 @@ class Harness:
         spec = self.specs[pid]
         want_args = [jsonable(make_arg(a)) for a in spec.get("args", [])]
         want_kwargs = {k: jsonable(make_arg(v)) for k, v in spec.get("kwargs", {}).items()}
+        if spec.get("callable") == "partial-args":
+            want_args = ["pre"] + want_args
+            want_kwargs = dict({"pk": "pre"}, **want_kwargs)
         got_args = [jsonable(a) for a in args]
         got_kwargs = {k: jsonable(v) for k, v in kwargs.items()}
         self.ev("start", pid, ctx=self.context(), args=got_args, kwargs=got_kwargs, args_ok=(got_args == want_args and got_kwargs == want_kwargs), mode=mode)
